@@ -90,7 +90,8 @@ class Folder:
         self._fn_stack: List[str] = []
 
     def _note(self, test: ast.AST, t: Optional[bool], parent: Optional[ast.AST] = None) -> None:
-        if self.trace is not None and t is not None:
+        if self.trace is not None:
+            # t is None: the test could not be decided - whatever the fold returns after that is not a decision
             self.trace.append((" > ".join(self._fn_stack), test, parent, t))
 
     def start_trace(self) -> None:
@@ -108,6 +109,10 @@ class Folder:
             return bool(arm) and isinstance(arm[-1], ast.Raise)
         out = []
         for fn, test, parent, outs in seen.values():
+            if None in outs and not any(fr.endswith(i) or fr.startswith("errors:") for fr in fn.split(" > ") for i in tuple(ignore) + ("\0",)):
+                out.append((fn, test))
+                continue
+            outs = outs - {None}
             if len(outs) == 2 or any(fr.endswith(i) or fr.startswith("errors:") for fr in fn.split(" > ") for i in tuple(ignore) + ("\0",)):
                 continue
             if isinstance(parent, ast.If) and (refuses(parent.body) or refuses(parent.orelse)):
@@ -279,6 +284,10 @@ class Folder:
                 if isinstance(e.op, ast.Or) and t:
                     return last
             return last
+        if isinstance(e, ast.NamedExpr) and isinstance(e.target, ast.Name):
+            v_ = self.expr(e.value, env, m)
+            env[e.target.id] = v_
+            return v_
         if isinstance(e, ast.IfExp):
             t = self.truth(self.expr(e.test, env, m))
             self._note(e.test, t)
@@ -387,6 +396,8 @@ class Folder:
     def truth(self, v: Any) -> Optional[bool]:
         if is_unknown(v):
             return None
+        if isinstance(v, ExtVal) and v.called:
+            return None  # the result of an external call: not known
         if isinstance(v, (Inst, ExtVal, FuncVal, ClassVal, Module)):
             return True
         try:
@@ -481,6 +492,16 @@ class Folder:
             return self.instantiate(f.cls, args, kwargs)
         if isinstance(f, FuncVal):
             return self._call_function(f, args, kwargs)
+        if isinstance(f, ExtVal) and not f.called and f.name.startswith("operator.") and not kwargs and args \
+                and all(isinstance(a, (int, float, str, bytes, bool, list, tuple, dict, set, type(None))) for a in args):
+            import operator as _op
+            fn_ = getattr(_op, f.name.split(".", 1)[1], None)
+            if fn_ is not None and f.name.split(".", 1)[1] in ("lt", "le", "gt", "ge", "eq", "ne", "add", "sub", "mul", "floordiv", "mod", "neg", "not_", "truth", "is_", "is_not", "contains",
+                                                                   "and_", "or_", "getitem", "concat"):
+                try:
+                    return fn_(*args)
+                except Exception:
+                    return Unknown(f.name + " failed")
         if isinstance(f, ExtVal):
             if f.name == "collections.OrderedDict" and not f.called and not any(is_unknown(a) or isinstance(a, ExtVal) for a in list(args) + list(kwargs.values())):
                 try:  # an insertion-ordered mapping: the folder's dict is one
@@ -507,6 +528,8 @@ class Folder:
                 return self._isinstance(args[0], args[1])
             if any(is_unknown(a) for a in args):
                 return Unknown(name)
+            if name in ("str", "int", "bool", "bytes", "float") and any(isinstance(a, ExtVal) for a in args):
+                return ExtVal(name, tuple(args), (), True)  # a conversion of an external result stays a symbolic term
             if name == "len":
                 return len(args[0])
             if name in ("str", "int", "bool", "bytes", "list", "dict", "float", "set", "frozenset", "tuple", "sorted"):
@@ -723,6 +746,7 @@ class Folder:
             if isinstance(it, dict):
                 it = list(it.keys())
             if not isinstance(it, (list, tuple, set, frozenset)):
+                self._note(st.iter, None)
                 self._poison(st, env, m)
                 return
             for x in list(it):
